@@ -35,7 +35,9 @@ type Frame struct {
 // Win is a receiver's flow-control behaviour: the initial stream window it
 // announces and how it returns credit (immediate: per DATA frame; deferred:
 // nothing until the sender's whole script has reached the relay, then all at
-// once; step: as deferred, then increments of Step).
+// once; step: as deferred, then increments of Step; early (client only): 1 MiB
+// of stream credit right after the HEADERS that open the stream, i.e. before the
+// relay has forwarded anything on it toward the client, and nothing per stream later).
 type Win struct {
 	Init int    `json:"init"`
 	Mode string `json:"mode"`
@@ -284,6 +286,15 @@ func genWin(t *rapid.T, label string) Win {
 	return w
 }
 
+func genClientWin(t *rapid.T) Win {
+	w := genWin(t, "cwin")
+	if rapid.IntRange(0, 4).Draw(t, "cwin_early") == 0 {
+		w.Mode, w.Step = "early", 0
+		w.Init = rapid.SampledFrom([]int{0, 1, 100, 1000}).Draw(t, "cwin_early_init")
+	}
+	return w
+}
+
 func genPieces(t *rapid.T) []int {
 	switch rapid.IntRange(0, 4).Draw(t, "seg") {
 	case 0:
@@ -304,7 +315,7 @@ func genPieces(t *rapid.T) []int {
 func genCase(t *rapid.T) Case {
 	c := Case{
 		Pieces: genPieces(t),
-		CWin:   genWin(t, "cwin"),
+		CWin:   genClientWin(t),
 		SWin:   genWin(t, "swin"),
 		Procs:  rapid.IntRange(0, 4).Draw(t, "procs"),
 		CMax:   rapid.SampledFrom([]uint32{0, 0, 16384, 32768, 1 << 20}).Draw(t, "cmax"),
